@@ -18,6 +18,30 @@ func (e *PSEnv) AssumeNilAlways(v ssa.Value, isNil bool) {
 	e.stickyNil[v] = isNil
 }
 
+// EdgeOrigin prepares a path-sensitive search that starts by taking edge k: it returns the
+// location of the terminator of the edge's source block and a copy of cut (nil allowed) in
+// which the other out-edges of that block are cut as well. Starting there (rather than at
+// EdgeStart) lets the search bind the phis of the edge's target block and record the branch
+// condition.
+func EdgeOrigin(fn *ssa.Function, k EdgeKey, cut *Cut) (Loc, *Cut) {
+	src := fn.Blocks[k[0]]
+	nc := NewCut()
+	if cut != nil {
+		for e := range cut.Edges {
+			nc.Edges[e] = true
+		}
+		for i := range cut.Instrs {
+			nc.Instrs[i] = true
+		}
+	}
+	for _, s := range src.Succs {
+		if s.Index != k[1] {
+			nc.Edges[EdgeKey{src.Index, s.Index}] = true
+		}
+	}
+	return Loc{src, len(src.Instrs) - 1}, nc
+}
+
 // EdgeStart returns the location at which the target block of edge k of fn starts.
 func EdgeStart(fn *ssa.Function, k EdgeKey) Loc {
 	return Loc{fn.Blocks[k[1]], 0}
